@@ -115,6 +115,21 @@ Lemma gen_sql_add_once bprog db0 cfg k :
   end.
 Proof. rewrite gen_sqlite_methods_frozen. exact (sql_add_once bprog db0 cfg k). Qed.
 
+Lemma gen_sql_remove_once bprog db0 cfg k e :
+  qreachable gen_sqlite_methods (qinit bprog db0) cfg -> nodupk db0 ->
+  (forall i, forallb bop_okb (bprog i) = true) ->
+  (forall i, Forall (SeqFacts.remove_or_other k) (bprog i)) ->
+  @lookup entry k db0 = Some e ->
+  let ops := qops (applied (qdone cfg)) in
+  match SeqFacts.key_ops k ops with
+  | [] => lookup k (abs (qdb cfg)) = Some e
+  | _ :: rest =>
+      lookup k (abs (qdb cfg)) = None /\
+      SeqFacts.key_results k ops (qresults (applied (qdone cfg)))
+      = RUnit :: repeat (RErr ENotFound) (List.length rest)
+  end.
+Proof. rewrite gen_sqlite_methods_frozen. exact (sql_remove_once bprog db0 cfg k e). Qed.
+
 Lemma gen_sql_emplace_keeps_first bprog db0 cfg k :
   qreachable gen_sqlite_methods (qinit bprog db0) cfg -> nodupk db0 ->
   (forall i, forallb bop_okb (bprog i) = true) ->
